@@ -3,6 +3,7 @@
 package main
 
 import (
+	"encoding/json"
 	"fmt"
 	"os"
 	"strconv"
@@ -28,7 +29,19 @@ func main() {
 		b, _ := strconv.Atoi(os.Args[4])
 		mc.Debug(os.Args[2], os.Args[3], b, os.Args[5:])
 	case "count":
-		fmt.Println(len(mc.Defs[os.Args[2]].Gen(os.Args[3])))
+		scs := mc.Defs[os.Args[2]].Gen(os.Args[3])
+		fmt.Println(len(scs))
+		if len(os.Args) > 4 { // count <id> <tier> <json-field>: scenarios per value of a field of the spec
+			by := map[string]int{}
+			for _, sc := range scs {
+				var m map[string]any
+				_ = json.Unmarshal(sc.Spec.Params, &m)
+				by[fmt.Sprint(m[os.Args[4]])]++
+			}
+			for k, v := range by {
+				fmt.Println(v, k)
+			}
+		}
 	case "worker":
 		i, _ := strconv.Atoi(os.Args[4])
 		n, _ := strconv.Atoi(os.Args[5])
